@@ -412,6 +412,25 @@ func applyPseudo(p mq.Packet, name, arg string) {
 		p.WriteTo(&w)
 	case "~FailWrite":
 		p.WriteTo(&scriptWriter{err: injectedErr(3)})
+	case "~PartWrite":
+		// a writer that takes a few bytes and then fails
+		k := 1
+		if arg != "" {
+			k, _ = strconv.Atoi(arg)
+		}
+		p.WriteTo(&scriptWriter{mode: 'S', k: k, err: injectedErr(4)})
+	case "~FilterSet":
+		// the program changes a filter in place through the slice Filters() returned:
+		// ~FilterSet:<index>:<filter hex>:<options>
+		parts := strings.Split(arg, ":")
+		if sub, ok := p.(*mq.Subscribe); ok && len(parts) == 3 {
+			i, _ := strconv.Atoi(parts[0])
+			o, _ := strconv.Atoi(parts[2])
+			if fs := sub.Filters(); i < len(fs) {
+				fs[i].SetFilter(string(unhex(parts[1])))
+				fs[i].SetOptions(mq.Opt(o))
+			}
+		}
 	case "~WellFormed":
 		if wf, ok := p.(interface{ WellFormed() *mq.Malformed }); ok {
 			_ = wf.WellFormed()
